@@ -196,6 +196,16 @@ pub struct Script {
     /// partial responses of its own
     #[serde(default)]
     pub noise_connection: bool,
+    /// complete lines the peer sends unasked in the same segment as its greeting (a banner, a proxy's
+    /// remark): a client must not take them for the answer to a request it has yet to send
+    #[serde(default)]
+    pub greeting_tail: Option<B>,
+    /// the callers' futures are not tasks of the runtime that runs the connection: they are polled by a
+    /// small executor on another OS thread (a `Client` is Send + Sync; an application may use its clones
+    /// from any thread and any executor). The driver waits for that thread to go idle after every runtime
+    /// tick, so the interleaving stays a function of the case.
+    #[serde(default)]
+    pub foreign_callers: bool,
 }
 
 pub fn error_kind(k: u8) -> io::ErrorKind {
@@ -210,7 +220,7 @@ impl Script {
     }
 
     pub fn new(steps: Vec<Step>) -> Script {
-        Script { sched_seed: 1, seg: SegPattern::Whole, replies: Vec::new(), steps, max_write: None, picture: None, broken_pipe: true, greeting: None, lazy_events: false, version: None, vectored: false, events_polled_last: false, error_kind: 0, real_ms_per_advance: 0, noise_connection: false }
+        Script { sched_seed: 1, seg: SegPattern::Whole, replies: Vec::new(), steps, max_write: None, picture: None, broken_pipe: true, greeting: None, lazy_events: false, version: None, vectored: false, events_polled_last: false, error_kind: 0, real_ms_per_advance: 0, noise_connection: false, greeting_tail: None, foreign_callers: false }
     }
 }
 
@@ -269,6 +279,8 @@ pub struct Server {
 // transport
 
 pub struct Shared {
+    /// the executor thread of `Script.foreign_callers`, if any (settle waits for it)
+    pub foreign: Option<Arc<Foreign>>,
     pub outbox: Vec<u8>,
     released: usize,
     marks: VecDeque<usize>,
@@ -934,6 +946,7 @@ impl Drop for SimIo {
 
 pub fn new_io(script: &Script, password: Option<Password>) -> (SimIo, Handle) {
     let shared = Shared {
+        foreign: None,
         outbox: Vec::new(),
         released: 0,
         marks: VecDeque::new(),
@@ -997,10 +1010,14 @@ pub fn new_io(script: &Script, password: Option<Password>) -> (SimIo, Handle) {
         match &script.greeting {
             None => {
                 // the greeting is one read of its own; the case's pattern applies to everything after it
-                match &script.version {
-                    None => s.server_write(GREETING),
-                    Some(v) => s.server_write(format!("OK MPD {v}\n").as_bytes()),
+                let mut first = match &script.version {
+                    None => GREETING.to_vec(),
+                    Some(v) => format!("OK MPD {v}\n").into_bytes(),
                 };
+                if let Some(t) = &script.greeting_tail {
+                    first.extend_from_slice(&t.0);
+                }
+                s.server_write(&first);
                 s.seg = script.seg.clone();
             }
             Some(g) => {
@@ -1206,12 +1223,134 @@ struct Running {
     cancelled: bool,
 }
 
+// ---- callers on a foreign thread -----------------------------------------------------------------
+
+type ForeignFuture = std::pin::Pin<Box<dyn std::future::Future<Output = Outcome> + Send>>;
+
+enum ForeignMsg {
+    Run(u64, ForeignFuture, tokio::sync::oneshot::Sender<Outcome>),
+    Drop(u64),
+}
+
+#[derive(Default)]
+struct ForeignState {
+    inbox: Vec<ForeignMsg>,
+    wakes: usize,
+    busy: bool,
+    shutdown: bool,
+}
+
+/// A minimal executor on its own OS thread: polls every task it holds whenever one of them is woken or
+/// a message arrives.
+#[derive(Default)]
+pub struct Foreign {
+    st: Mutex<ForeignState>,
+    cv: std::sync::Condvar,
+}
+
+struct ForeignWaker(Arc<Foreign>);
+impl std::task::Wake for ForeignWaker {
+    fn wake(self: Arc<Self>) {
+        let mut s = self.0.st.lock().unwrap();
+        s.wakes += 1;
+        self.0.cv.notify_all();
+    }
+}
+
+impl Foreign {
+    fn start() -> (Arc<Foreign>, std::thread::JoinHandle<()>) {
+        let f = Arc::new(Foreign::default());
+        let f2 = f.clone();
+        let dispatch = tracing::dispatcher::get_default(|d| d.clone());
+        let t = std::thread::spawn(move || {
+            crate::core::enter_guard();
+            let _d = tracing::dispatcher::set_default(&dispatch);
+            f2.serve();
+        });
+        (f, t)
+    }
+
+    fn serve(self: &Arc<Self>) {
+        let mut tasks: Vec<(u64, ForeignFuture, tokio::sync::oneshot::Sender<Outcome>)> = Vec::new();
+        let waker = Waker::from(Arc::new(ForeignWaker(self.clone())));
+        loop {
+            let msgs = {
+                let mut s = self.st.lock().unwrap();
+                while s.inbox.is_empty() && s.wakes == 0 && !s.shutdown {
+                    s = self.cv.wait(s).unwrap();
+                }
+                if s.shutdown && s.inbox.is_empty() {
+                    return;
+                }
+                s.busy = true;
+                s.wakes = 0;
+                std::mem::take(&mut s.inbox)
+            };
+            for m in msgs {
+                match m {
+                    ForeignMsg::Run(id, fut, tx) => tasks.push((id, fut, tx)),
+                    ForeignMsg::Drop(id) => tasks.retain(|t| t.0 != id),
+                }
+            }
+            let mut cx = Context::from_waker(&waker);
+            let mut i = 0;
+            while i < tasks.len() {
+                let polled = std::panic::catch_unwind(std::panic::AssertUnwindSafe(|| tasks[i].1.as_mut().poll(&mut cx)));
+                match polled {
+                    Ok(Poll::Pending) => i += 1,
+                    Ok(Poll::Ready(o)) => {
+                        let (_, _, tx) = tasks.remove(i);
+                        let _ = tx.send(o);
+                    }
+                    // the sender is dropped without a value: the proxy task reports a panic
+                    Err(_) => drop(tasks.remove(i)),
+                }
+            }
+            self.st.lock().unwrap().busy = false;
+            self.cv.notify_all();
+        }
+    }
+
+    fn post(&self, m: ForeignMsg) {
+        let mut s = self.st.lock().unwrap();
+        s.inbox.push(m);
+        self.cv.notify_all();
+    }
+
+    /// Blocks (the calling thread, not the runtime) until the executor has nothing left to react to.
+    pub fn wait_idle(&self) {
+        let mut s = self.st.lock().unwrap();
+        while !s.inbox.is_empty() || s.wakes != 0 || s.busy {
+            s = self.cv.wait(s).unwrap();
+        }
+    }
+
+    fn shutdown(&self) {
+        let mut s = self.st.lock().unwrap();
+        s.shutdown = true;
+        self.cv.notify_all();
+    }
+}
+
+/// Lives inside the proxy task of a foreign request: dropping it (completion or `abort`) makes the
+/// executor thread drop the caller's future.
+struct ForeignTask(Arc<Foreign>, u64);
+impl Drop for ForeignTask {
+    fn drop(&mut self) {
+        self.0.post(ForeignMsg::Drop(self.1));
+    }
+}
+
 async fn settle(h: &Handle, done: &Arc<Mutex<u64>>) {
     let mut stable = 0;
     let mut last = (h.lock().unwrap().activity, *done.lock().unwrap());
     let mut rounds = 0;
+    let foreign = h.lock().unwrap().foreign.clone();
     while stable < 4 && rounds < 100_000 {
         tokio::task::yield_now().await;
+        if let Some(f) = &foreign {
+            f.wait_idle();
+        }
         let now = (h.lock().unwrap().activity, *done.lock().unwrap());
         if now == last {
             stable += 1;
@@ -1262,6 +1401,10 @@ async fn drive(script: &Script, connect: Connect) -> Observation {
     };
     let (io, h) = new_io(script, password.clone());
     h.lock().unwrap().start = Some(start);
+    let foreign = script.foreign_callers.then(Foreign::start);
+    if let Some((f, _)) = &foreign {
+        h.lock().unwrap().foreign = Some(f.clone());
+    }
     let done: Arc<Mutex<u64>> = Arc::new(Mutex::new(0));
     let mut obs = Observation {
         connect_error: None,
@@ -1302,6 +1445,11 @@ async fn drive(script: &Script, connect: Connect) -> Observation {
         Err(e) => {
             obs.connect_error = Some(e);
             settle(&h, &done).await;
+            if let Some((f, thread)) = foreign {
+                h.lock().unwrap().foreign = None;
+                f.shutdown();
+                let _ = thread.join();
+            }
             finish(&mut obs, &h);
             return obs;
         }
@@ -1391,11 +1539,29 @@ async fn drive(script: &Script, connect: Connect) -> Observation {
                 let pending = running.iter().filter(|r| !r.cancelled && !r.handle.is_finished()).count();
                 let done2 = done.clone();
                 let req2 = req.clone();
-                let handle = tokio::spawn(async move {
-                    let out = perform(client, req2).await;
-                    *done2.lock().unwrap() += 1;
-                    out
-                });
+                let handle = if let Some((f, _)) = &foreign {
+                    // the caller's future lives on the foreign thread; a proxy task here waits for its outcome
+                    let (tx, rx) = tokio::sync::oneshot::channel();
+                    let id = obs.requests.len() as u64;
+                    f.post(ForeignMsg::Run(id, Box::pin(perform(client, req2)), tx));
+                    f.wait_idle();
+                    let task = ForeignTask(f.clone(), id);
+                    tokio::spawn(async move {
+                        let _task = task;
+                        let out = rx.await;
+                        *done2.lock().unwrap() += 1;
+                        match out {
+                            Ok(o) => o,
+                            Err(_) => std::panic::resume_unwind(Box::new("the caller's future panicked on the foreign thread")),
+                        }
+                    })
+                } else {
+                    tokio::spawn(async move {
+                        let out = perform(client, req2).await;
+                        *done2.lock().unwrap() += 1;
+                        out
+                    })
+                };
                 obs.requests.push((*caller, req.clone(), ReqState::Hung, pending));
                 running.push(Running { handle, cancelled: false });
             }
@@ -1522,6 +1688,11 @@ async fn drive(script: &Script, connect: Connect) -> Observation {
     obs.events = c.0.clone();
     obs.events_ended = c.1;
     drop(c);
+    if let Some((f, thread)) = foreign {
+        h.lock().unwrap().foreign = None;
+        f.shutdown();
+        let _ = thread.join();
+    }
     finish(&mut obs, &h);
     obs
 }
